@@ -1,0 +1,57 @@
+//go:build verif
+
+package fzf
+
+import (
+	"time"
+
+	"github.com/junegunn/fzf/src/tui"
+	"github.com/junegunn/fzf/src/util"
+)
+
+// Verification hook (build tag verif): buildPlusList, then Terminal.replacePlaceholder, on a Terminal of a finder
+// started with or without --ansi and with a coloured or colourless theme, over items that carry the two strings the
+// reader (core.go) gives an item: text and, under --with-nth, origText. No logic of its own.
+
+// VerifViewItem is an item as the reader left it: Text = item.text; Orig = item.origText (nil without --with-nth).
+type VerifViewItem struct {
+	Index int32
+	Text  string
+	Orig  *string
+}
+
+// VerifTerminalExpandView is VerifTerminalExpand with t.ansi = ansi and t.theme.Colored = colored.
+func VerifTerminalExpandView(template string, forcePlus bool, delim *string, printsep string, query string,
+	items []VerifViewItem, cy int, selOrder []int, prompt string, withShell string, ansi bool, colored bool) (bool, string, []string, string) {
+	results := make([]Result, len(items))
+	for i := range items {
+		item := &Item{text: util.ToChars([]byte(items[i].Text))}
+		item.text.Index = items[i].Index
+		if items[i].Orig != nil {
+			orig := []byte(*items[i].Orig)
+			item.origText = &orig
+		}
+		results[i] = Result{item: item}
+	}
+	action := actBackwardDeleteCharEof
+	t := &Terminal{
+		merger:       NewMerger(nil, [][]Result{results}, false, false, revision{}, 0),
+		cy:           cy,
+		multi:        len(items) + 1,
+		selected:     make(map[int32]selectedItem),
+		delimiter:    Delimiter{str: delim},
+		printsep:     printsep,
+		lastAction:   action,
+		promptString: prompt,
+		executor:     util.NewExecutor(withShell),
+		ansi:         ansi,
+		theme:        &tui.ColorTheme{Colored: colored},
+	}
+	for k, pos := range selOrder {
+		item := results[pos].item
+		t.selected[item.Index()] = selectedItem{time.Unix(int64(k), 0), item}
+	}
+	valid, list := t.buildPlusList(template, forcePlus)
+	out, temps := t.replacePlaceholder(template, forcePlus, query, list)
+	return valid, out, temps, action.Name()
+}
